@@ -4,6 +4,8 @@ import TypedpyModel.Props.C01
 import TypedpyModel.Props.C02
 import TypedpyModel.Props.C03
 import TypedpyModel.Props.C04
+import TypedpyModel.Props.C04Subclass
+import TypedpyModel.Props.C04Alias
 import TypedpyModel.Props.C05
 import TypedpyModel.Props.C06
 import TypedpyModel.Props.C07
